@@ -158,6 +158,9 @@ def timer_cases(q):
     cases.append(("case", T + ["sched 0 once 200 30", "sched 0 once 20 32", "sleep 40", "pollone", "tcancel 0", "sched 0 once 20 32", "sleep 40", "pollone"]))
     cases.append(("case", T + ["sched 0 once 20 30", "tclose 0", "sched 0 once 20 30", "tcancel 0", "sched 0 once 20 30", "sleep 40", "pollone"]))
     cases.append(("case", T + ["tclose 0", "tcancel 0", "sched 0 rep 20 30", "sleep 40", "pollone"]))
+    # a closed timer is not revived by a zero or negative delay either (no immediate callback)
+    cases.append(("case", T + ["tclose 0", "sched 0 once 0 30", "sched 0 once -5 30", "pollone", "sched 1 once 0 31"]))
+    cases.append(("case", T + ["sched 0 once 20 30", "tclose 0", "sched 0 once 0 32", "sleep 40", "pollone", "sched 0 rep 0 32"]))
     # immediate callback for non-positive delays
     cases.append(("case", T + ["sched 0 once 0 30", "sched 0 once -5 30", "sched 0 rep 0 30", "pollone"]))
     # not before the delay
